@@ -52,6 +52,12 @@ type Proc struct {
 	Target string `json:"target,omitempty"` // unregistrar: whose registration
 	N      int    `json:"n,omitempty"`      // measurements / spans / uses / collects
 	Fresh  bool   `json:"fresh,omitempty"`  // xuser: re-Get the global object before every use
+	// installers: sequence of Set calls, each "self" (Set(Get()): a documented no-op while the default is
+	// installed), "r1" or "r2" (two distinct real SDKs); default ["r1"]
+	Script []string `json:"script,omitempty"`
+	// creator / registrar / tuser: go through a reference to the default provider kept from before
+	// anything was installed, instead of a fresh Get
+	Kept bool `json:"kept,omitempty"`
 }
 
 type Scenario struct {
@@ -126,9 +132,13 @@ type child struct {
 	tw    *vh.TraceWriter
 	h     *H
 	sched *gsched
-	rd    *sdkmetric.ManualReader
-	wmp   *wMP
-	wtp   *wTP
+	ids   []string // the two real SDKs
+	rd    map[string]*sdkmetric.ManualReader
+	wmp   map[string]*wMP
+	wtp   map[string]*wTP
+	dmp   metric.MeterProvider // the default (delegating) providers, kept from before anything was installed
+	dtp   trace.TracerProvider
+	via   map[string]string // handle (owner / "t:"+user) -> provider it came from: "dflt" | "r1" | "r2"
 	mu    sync.Mutex
 	recs  map[string]recorder            // handed-out sync instruments (by owner name)
 	regs  map[string]metric.Registration // registrations (by registrar name)
@@ -156,41 +166,66 @@ func (c *child) ret(op string, f map[string]any) {
 }
 
 // --- operations; `gate` is a no-op for the sequential pre-phase
-func (c *child) getMeter(p Proc, gate func(string)) metric.Meter {
-	gate("meter")
-	f := map[string]any{"kind": "mp", "what": "meter", "obj": p.Meter, "proc": p.Name}
-	c.call("Obj", f)
-	m := otel.GetMeterProvider().Meter(p.Meter)
-	c.ret("Obj", f)
-	return m
+func (c *child) setVia(h, via string) {
+	c.mu.Lock()
+	c.via[h] = via
+	c.mu.Unlock()
 }
-func (c *child) mkSync(p Proc, m metric.Meter, gate func(string)) recorder {
+func (c *child) viaOf(h string) string {
+	c.mu.Lock()
+	defer c.mu.Unlock()
+	return c.via[h]
+}
+
+// getMeter: GetMeterProvider() (logged as Get, with the identity of what it returned) or the kept
+// reference to the default provider, then Meter().
+func (c *child) getMeter(p Proc, proc string, gate func(string)) (metric.Meter, string) {
+	gate("meter")
+	var mp metric.MeterProvider
+	if p.Kept {
+		mp = c.dmp
+	} else {
+		g := map[string]any{"kind": "mp", "proc": proc}
+		c.call("Get", g)
+		mp = otel.GetMeterProvider()
+		g["val"] = valName(mp)
+		c.ret("Get", g)
+	}
+	via := valName(mp)
+	f := map[string]any{"kind": "mp", "what": "meter", "obj": p.Meter, "proc": proc, "via": via}
+	c.call("Obj", f)
+	m := mp.Meter(p.Meter)
+	c.ret("Obj", f)
+	return m, via
+}
+func (c *child) mkSync(p Proc, m metric.Meter, via, proc string, gate func(string)) recorder {
 	gate("inst")
-	f := map[string]any{"kind": "mp", "what": "inst", "obj": p.Name, "proc": p.Name, "ikind": p.IKind}
+	f := map[string]any{"kind": "mp", "what": "inst", "obj": p.Name, "proc": proc, "ikind": p.IKind, "via": via}
 	c.call("Obj", f)
 	r, err := newSync(m, p.IKind, p.Name)
 	f["err"] = errS(err)
 	c.ret("Obj", f)
+	c.setVia(p.Name, via)
 	c.mu.Lock()
 	c.recs[p.Name] = r
 	c.mu.Unlock()
 	return r
 }
-func (c *child) use(kind, id, obj, proc string, f func(ctx context.Context)) {
-	ev := map[string]any{"kind": kind, "id": id, "obj": obj, "proc": proc}
+func (c *child) use(kind, id, obj, via, proc string, f func(ctx context.Context)) {
+	ev := map[string]any{"kind": kind, "id": id, "obj": obj, "via": via, "proc": proc}
 	c.call("Use", ev)
 	f(withID(id))
 	c.ret("Use", ev)
 }
-func (c *child) register(p Proc, m metric.Meter, gate func(string)) {
+func (c *child) register(p Proc, m metric.Meter, via string, gate func(string)) {
 	gate("inst")
-	f := map[string]any{"kind": "mp", "what": "inst", "obj": p.Name, "proc": p.Name, "ikind": p.IKind}
+	f := map[string]any{"kind": "mp", "what": "inst", "obj": p.Name, "proc": p.Name, "ikind": p.IKind, "via": via}
 	c.call("Obj", f)
 	inst, observe, err := newObs(m, p.IKind, p.Name)
 	f["err"] = errS(err)
 	c.ret("Obj", f)
 	gate("register")
-	g := map[string]any{"cb": p.Name, "proc": p.Name}
+	g := map[string]any{"cb": p.Name, "proc": p.Name, "via": via}
 	c.call("Register", g)
 	reg, err := m.RegisterCallback(func(_ context.Context, o metric.Observer) error {
 		c.emit(map[string]any{"ev": "SdkCbInvoked", "cb": p.Name})
@@ -219,17 +254,33 @@ func (c *child) unregister(cb, proc string) {
 }
 func (c *child) getTracer(p Proc, gate func(string)) trace.Tracer {
 	gate("tracer")
-	f := map[string]any{"kind": "tp", "what": "tracer", "obj": p.Tracer, "proc": p.Name}
+	var tp trace.TracerProvider
+	if p.Kept {
+		tp = c.dtp
+	} else {
+		g := map[string]any{"kind": "tp", "proc": p.Name}
+		c.call("Get", g)
+		tp = otel.GetTracerProvider()
+		g["val"] = valName(tp)
+		c.ret("Get", g)
+	}
+	via := valName(tp)
+	f := map[string]any{"kind": "tp", "what": "tracer", "obj": p.Tracer, "proc": p.Name, "via": via}
 	c.call("Obj", f)
-	t := otel.GetTracerProvider().Tracer(p.Tracer)
+	t := tp.Tracer(p.Tracer)
 	c.ret("Obj", f)
+	c.setVia("t:"+p.Name, via)
 	c.mu.Lock()
 	c.trs[p.Name] = t
 	c.mu.Unlock()
 	return t
 }
 func (c *child) xuse(kind, id, proc string, prop propagation.TextMapPropagator, eh otel.ErrorHandler) {
-	c.use(kind, id, kind, proc, func(ctx context.Context) {
+	via := valName(prop)
+	if kind == "eh" {
+		via = valName(eh)
+	}
+	c.use(kind, id, kind, via, proc, func(ctx context.Context) {
 		if kind == "prop" {
 			prop.Inject(ctx, propagation.MapCarrier{})
 		} else {
@@ -237,45 +288,69 @@ func (c *child) xuse(kind, id, proc string, prop propagation.TextMapPropagator, 
 		}
 	})
 }
+
+// xget: GetTextMapPropagator() / GetErrorHandler(), logged as Get
+func (c *child) xget(kind, proc string) (propagation.TextMapPropagator, otel.ErrorHandler) {
+	g := map[string]any{"kind": kind, "proc": proc}
+	c.call("Get", g)
+	var prop propagation.TextMapPropagator
+	var eh otel.ErrorHandler
+	if kind == "prop" {
+		prop = otel.GetTextMapPropagator()
+		g["val"] = valName(prop)
+	} else {
+		eh = otel.GetErrorHandler()
+		g["val"] = valName(eh)
+	}
+	c.ret("Get", g)
+	return prop, eh
+}
+
+// collect reads both SDKs' readers (one logical collection).
 func (c *child) collect(final bool, proc string) {
 	f := map[string]any{"final": final, "proc": proc}
 	c.call("Collect", f)
-	var rm metricdata.ResourceMetrics
-	err := c.rd.Collect(context.Background(), &rm)
 	points := []string{}
 	sums := []map[string]any{}
-	for _, sm := range rm.ScopeMetrics {
-		for _, m := range sm.Metrics {
-			n, has := int64(0), false
-			switch d := m.Data.(type) {
-			case metricdata.Sum[int64]:
-				for _, dp := range d.DataPoints {
-					n, has = n+dp.Value, true
+	errs := ""
+	for _, sdk := range c.ids {
+		var rm metricdata.ResourceMetrics
+		if err := c.rd[sdk].Collect(context.Background(), &rm); err != nil {
+			errs += err.Error() + ";"
+		}
+		for _, sm := range rm.ScopeMetrics {
+			for _, m := range sm.Metrics {
+				n, has := int64(0), false
+				switch d := m.Data.(type) {
+				case metricdata.Sum[int64]:
+					for _, dp := range d.DataPoints {
+						n, has = n+dp.Value, true
+					}
+				case metricdata.Sum[float64]:
+					for _, dp := range d.DataPoints {
+						n, has = n+int64(dp.Value), true
+					}
+				case metricdata.Histogram[int64]:
+					for _, dp := range d.DataPoints {
+						n, has = n+int64(dp.Count), true
+					}
+				case metricdata.Histogram[float64]:
+					for _, dp := range d.DataPoints {
+						n, has = n+int64(dp.Count), true
+					}
+				case metricdata.Gauge[int64]:
+					has, n = len(d.DataPoints) > 0, -1
+				case metricdata.Gauge[float64]:
+					has, n = len(d.DataPoints) > 0, -1
 				}
-			case metricdata.Sum[float64]:
-				for _, dp := range d.DataPoints {
-					n, has = n+int64(dp.Value), true
+				if has {
+					points = append(points, m.Name)
+					sums = append(sums, map[string]any{"inst": sdk + "/" + m.Name, "name": m.Name, "n": n})
 				}
-			case metricdata.Histogram[int64]:
-				for _, dp := range d.DataPoints {
-					n, has = n+int64(dp.Count), true
-				}
-			case metricdata.Histogram[float64]:
-				for _, dp := range d.DataPoints {
-					n, has = n+int64(dp.Count), true
-				}
-			case metricdata.Gauge[int64]:
-				has, n = len(d.DataPoints) > 0, -1
-			case metricdata.Gauge[float64]:
-				has, n = len(d.DataPoints) > 0, -1
-			}
-			if has {
-				points = append(points, m.Name)
-				sums = append(sums, map[string]any{"inst": m.Name, "n": n})
 			}
 		}
 	}
-	f["err"], f["points"], f["sums"] = errS(err), points, sums
+	f["err"], f["points"], f["sums"] = errs, points, sums
 	c.ret("Collect", f)
 }
 
@@ -365,9 +440,14 @@ func runChild(sc Scenario, out string) {
 		props: map[string]propagation.TextMapPropagator{}, ehs: map[string]otel.ErrorHandler{}}
 	c.sched = newSched(sc.Script, sc.Seed+7, sc.Perturb)
 	c.h = &H{emit: c.emit, sched: c.sched, obs: map[any]string{}}
-	c.rd = sdkmetric.NewManualReader()
-	c.wmp = &wMP{real: sdkmetric.NewMeterProvider(sdkmetric.WithReader(c.rd)), h: c.h}
-	c.wtp = &wTP{real: sdktrace.NewTracerProvider(), h: c.h}
+	c.ids = []string{"r1", "r2"}
+	c.rd, c.wmp, c.wtp, c.via = map[string]*sdkmetric.ManualReader{}, map[string]*wMP{}, map[string]*wTP{}, map[string]string{}
+	for _, id := range c.ids {
+		c.rd[id] = sdkmetric.NewManualReader()
+		c.wmp[id] = &wMP{real: sdkmetric.NewMeterProvider(sdkmetric.WithReader(c.rd[id])), h: c.h, id: id}
+		c.wtp[id] = &wTP{real: sdktrace.NewTracerProvider(), h: c.h, id: id}
+	}
+	c.dmp, c.dtp = otel.GetMeterProvider(), otel.GetTracerProvider()
 	c.sched.register("main")
 	c.emit(map[string]any{"ev": "Cfg", "name": sc.Name})
 	rng := rand.New(rand.NewSource(sc.Seed))
@@ -381,11 +461,11 @@ func runChild(sc Scenario, out string) {
 	for _, p := range sc.Procs {
 		switch {
 		case p.Kind == "creator" && p.Pre:
-			m := c.getMeter(Proc{Name: "main", Meter: p.Meter}, nogate)
-			c.mkSyncAs(p, m, "main")
+			m, via := c.getMeter(p, "main", nogate)
+			c.mkSync(p, m, via, "main", nogate)
 		case p.Kind == "registrar" && p.Pre:
-			m := c.getMeter(Proc{Name: "main", Meter: p.Meter}, nogate)
-			c.register(p, m, nogate)
+			m, via := c.getMeter(p, "main", nogate)
+			c.register(p, m, via, nogate)
 		case p.Kind == "tuser" && p.Pre:
 			c.getTracer(p, nogate)
 		case p.Kind == "xuser":
@@ -475,18 +555,6 @@ loop:
 	os.Exit(0) // blocked goroutines are abandoned with the process
 }
 
-func (c *child) mkSyncAs(p Proc, m metric.Meter, proc string) recorder {
-	f := map[string]any{"kind": "mp", "what": "inst", "obj": p.Name, "proc": proc, "ikind": p.IKind}
-	c.call("Obj", f)
-	r, err := newSync(m, p.IKind, p.Name)
-	f["err"] = errS(err)
-	c.ret("Obj", f)
-	c.mu.Lock()
-	c.recs[p.Name] = r
-	c.mu.Unlock()
-	return r
-}
-
 func (c *child) runProc(p Proc, r *rand.Rand) {
 	gate := func(point string) {
 		if c.sc.Script == nil {
@@ -498,44 +566,81 @@ func (c *child) runProc(p Proc, r *rand.Rand) {
 	}
 	n := p.N
 	switch p.Kind {
-	case "minst":
-		gate("set")
-		f := map[string]any{"kind": "mp", "proc": p.Name}
-		c.call("Set", f)
-		otel.SetMeterProvider(c.wmp)
-		c.ret("Set", f)
-	case "tinst":
-		gate("tset")
-		f := map[string]any{"kind": "tp", "proc": p.Name}
-		c.call("Set", f)
-		otel.SetTracerProvider(c.wtp)
-		c.ret("Set", f)
-	case "xinst":
-		gate("xset")
-		f := map[string]any{"kind": p.X, "proc": p.Name}
-		c.call("Set", f)
-		if p.X == "prop" {
-			otel.SetTextMapPropagator(wProp{c.h})
-		} else {
-			otel.SetErrorHandler(wEH{c.h})
+	case "minst", "tinst", "xinst":
+		// a script of Set calls; "self" = Set(Get()) -- the Get is made before the gate, so that replayed
+		// schedules can put another installer between the Get and the Set
+		kind := map[string]string{"minst": "mp", "tinst": "tp", "xinst": p.X}[p.Kind]
+		script := p.Script
+		if len(script) == 0 {
+			script = []string{"r1"}
 		}
-		c.ret("Set", f)
+		for k, a := range script {
+			var mp metric.MeterProvider
+			var tp trace.TracerProvider
+			var prop propagation.TextMapPropagator
+			var eh otel.ErrorHandler
+			val := a
+			switch {
+			case a == "self" && kind == "mp":
+				g := map[string]any{"kind": kind, "proc": p.Name}
+				c.call("Get", g)
+				mp = otel.GetMeterProvider()
+				val = valName(mp)
+				g["val"] = val
+				c.ret("Get", g)
+			case a == "self" && kind == "tp":
+				g := map[string]any{"kind": kind, "proc": p.Name}
+				c.call("Get", g)
+				tp = otel.GetTracerProvider()
+				val = valName(tp)
+				g["val"] = val
+				c.ret("Get", g)
+			case a == "self":
+				prop, eh = c.xget(kind, p.Name)
+				val = valName(prop)
+				if kind == "eh" {
+					val = valName(eh)
+				}
+			case kind == "mp":
+				mp = c.wmp[a]
+			case kind == "tp":
+				tp = c.wtp[a]
+			case kind == "prop":
+				prop = wProp{c.h, a}
+			default:
+				eh = wEH{c.h, a}
+			}
+			gate(fmt.Sprintf("set:%d", k+1))
+			f := map[string]any{"kind": kind, "proc": fmt.Sprintf("%s#%d", p.Name, k+1), "val": val, "self": a == "self"}
+			c.call("Set", f)
+			switch kind {
+			case "mp":
+				otel.SetMeterProvider(mp)
+			case "tp":
+				otel.SetTracerProvider(tp)
+			case "prop":
+				otel.SetTextMapPropagator(prop)
+			default:
+				otel.SetErrorHandler(eh)
+			}
+			c.ret("Set", f)
+		}
 	case "creator":
 		c.mu.Lock()
 		rec := c.recs[p.Name]
 		c.mu.Unlock()
 		if !p.Pre {
-			m := c.getMeter(p, gate)
-			rec = c.mkSync(p, m, gate)
+			m, via := c.getMeter(p, p.Name, gate)
+			rec = c.mkSync(p, m, via, p.Name, gate)
 		}
 		for k := 1; k <= n; k++ {
 			gate(fmt.Sprintf("rec:%d", k))
-			c.use("mp", fmt.Sprintf("%s:%d", p.Name, k), p.Name, p.Name, rec)
+			c.use("mp", fmt.Sprintf("%s:%d", p.Name, k), p.Name, c.viaOf(p.Name), p.Name, rec)
 		}
 	case "registrar":
 		if !p.Pre {
-			m := c.getMeter(p, gate)
-			c.register(p, m, gate)
+			m, via := c.getMeter(p, p.Name, gate)
+			c.register(p, m, via, gate)
 		}
 		if p.Unreg {
 			gate("unreg")
@@ -568,7 +673,7 @@ func (c *child) runProc(p Proc, r *rand.Rand) {
 		}
 		for k := 1; k <= n; k++ {
 			gate(fmt.Sprintf("start:%d", k))
-			c.use("tp", fmt.Sprintf("%s:%d", p.Name, k), p.Tracer, p.Name, func(ctx context.Context) {
+			c.use("tp", fmt.Sprintf("%s:%d", p.Name, k), p.Tracer, c.viaOf("t:"+p.Name), p.Name, func(ctx context.Context) {
 				_, s := t.Start(ctx, "s")
 				s.End()
 			})
@@ -578,7 +683,7 @@ func (c *child) runProc(p Proc, r *rand.Rand) {
 		for k := 1; k <= n; k++ {
 			gate(fmt.Sprintf("use:%d", k))
 			if p.Fresh {
-				prop, eh = otel.GetTextMapPropagator(), otel.GetErrorHandler()
+				prop, eh = c.xget(p.X, p.Name)
 			}
 			c.xuse(p.X, fmt.Sprintf("%s:%d", p.Name, k), p.Name, prop, eh)
 		}
@@ -597,12 +702,29 @@ func (c *child) finalPhase() {
 		sort.Strings(s)
 		return s
 	}
+	has := map[string]bool{}
+	for _, p := range c.sc.Procs {
+		has[p.Kind] = true
+	}
+	nogate := func(string) {}
+	// objects created now: through a fresh Get (must come from, and reach, the provider set last) and through
+	// the kept reference to the default provider ("all the Meters it has created or will create")
+	if has["minst"] {
+		m, via := c.getMeter(Proc{Meter: "mfresh"}, "main", nogate)
+		c.mkSync(Proc{Name: "zfresh", IKind: "i64counter"}, m, via, "main", nogate)
+		m, via = c.getMeter(Proc{Meter: "mkept", Kept: true}, "main", nogate)
+		c.mkSync(Proc{Name: "zkept", IKind: "f64counter"}, m, via, "main", nogate)
+	}
+	if has["tinst"] {
+		c.getTracer(Proc{Name: "zfresh", Tracer: "tfresh"}, nogate)
+		c.getTracer(Proc{Name: "zkept", Tracer: "tkept", Kept: true}, nogate)
+	}
 	a := map[string]bool{}
 	for k := range c.recs {
 		a[k] = true
 	}
 	for _, k := range names(a) {
-		c.use("mp", "probe:"+k, k, "main", c.recs[k])
+		c.use("mp", "probe:"+k, k, c.viaOf(k), "main", c.recs[k])
 	}
 	a = map[string]bool{}
 	for k := range c.trs {
@@ -610,7 +732,7 @@ func (c *child) finalPhase() {
 	}
 	for _, k := range names(a) {
 		t := c.trs[k]
-		c.use("tp", "probe:"+k, k, "main", func(ctx context.Context) {
+		c.use("tp", "probe:t."+k, k, c.viaOf("t:"+k), "main", func(ctx context.Context) {
 			_, s := t.Start(ctx, "s")
 			s.End()
 		})
@@ -618,6 +740,8 @@ func (c *child) finalPhase() {
 	for _, p := range c.sc.Procs {
 		if p.Kind == "xuser" {
 			c.xuse(p.X, "probe:"+p.Name, "main", c.props[p.Name], c.ehs[p.Name])
+			prop, eh := c.xget(p.X, "main")
+			c.xuse(p.X, "probe:fresh."+p.Name, "main", prop, eh)
 		}
 	}
 	c.collect(true, "main")
